@@ -65,7 +65,8 @@ theorem sim_rmn {tick : Bool} {w : World} {j : JState} (hw : WheelInv w) (h : Si
     have hx : x ∈ cum 0 (w.slots i) := by rw [e1]; simp
     have hxw : InWheel w x.2 := ⟨_, x.1, hx⟩
     have hmem := h.wheelPend _ hxw
-    have hval : timeLeft w i r.1 = (toPend x.2).due - vnow w := by rw [← e3]; exact timeLeft_pend hw hx
+    have hval : Gen.C10.efunResult (timeLeft w i r.1) = toCInt ((toPend x.2).due - vnow w) := by
+      rw [← e3]; exact efun_pend hw hx
     have hxP : (!(toPend x.2).fp && (toPend x.2).owner == self && (toPend x.2).fn == fn) = true := by
       rw [pendByName_toPend]; exact e4
     have hce : (j.pend.filter (fun e => !e.fp && e.owner == self && e.fn == fn)).isEmpty = false := by
@@ -75,36 +76,49 @@ theorem sim_rmn {tick : Bool} {w : World} {j : JState} (hw : WheelInv w) (h : Si
         rw [List.isEmpty_iff] at hc
         have := List.filter_eq_nil_iff.1 hc _ hmem
         exact absurd hxP this
-    have hxQ : (fun e : Pend => !e.fp && e.owner == self && e.fn == fn && e.due - vnow w == (toPend x.2).due - vnow w)
-        (toPend x.2) = true := by
+    have hxQ : (fun e : Pend => !e.fp && e.owner == self && e.fn == fn &&
+        toCInt (e.due - vnow w) == toCInt ((toPend x.2).due - vnow w)) (toPend x.2) = true := by
       simp only [hxP, beq_self_eq_true, Bool.and_self]
-    obtain ⟨e, rest, hro⟩ := removeOne_isSome_of_mem
-      (q := fun e => !e.fp && e.owner == self && e.fn == fn && e.due - vnow w == (toPend x.2).due - vnow w) hmem hxQ
-    obtain ⟨r1, r2, _, _, r5⟩ := removeOne_some hro h.pendSorted
-    have hee : e = toPend x.2 := by
-      simp only [Bool.and_eq_true, beq_iff_eq] at r2
-      have r2a := (pendByName_iff self fn e).1 (by simp only [Bool.and_eq_true, beq_iff_eq]; exact r2.1)
-      obtain ⟨c, hc1, hc2⟩ := pend_alive_inWheel h r1 (by rw [r2a.2.1]; exact halive)
-      subst hc2
-      have hdue : c.due = x.2.due := by
-        have := r2.2; simp only [toPend] at this; omega
-      have hcP : byName self fn c = true := by
-        rw [← pendByName_toPend]; simp only [Bool.and_eq_true, beq_iff_eq]; exact r2.1
-      have hA : ∀ y ∈ A, y.2 ≠ c := by
-        intro y hy heq
-        have := e5 y hy
-        rw [heq, hcP] at this; cases this
-      rcases first_has_largest_handle hw e1 hc1 hdue hA with hcx | hlt
-      · rw [hcx]
-      · exfalso
-        have := r5 _ hmem hxQ
-        simp only [toPend] at this
-        omega
-    subst hee
-    have hj : judgeStep j (.rmn (vnow w) self fn (timeLeft w i r.1)) = { j with pend := rest } := by
-      simp only [judgeStep, hce, hval, hro, Bool.false_eq_true, if_false]
-    rw [hj]
-    exact SimJ.remove_pair hw h e1 e2 hro
+    cases hmin : minDue (fun e => !e.fp && e.owner == self && e.fn == fn &&
+        toCInt (e.due - vnow w) == toCInt ((toPend x.2).due - vnow w)) j.pend with
+    | none => have := minDue_none hmin _ hmem; exact absurd (hxQ.symm.trans this) (by simp)
+    | some e =>
+      obtain ⟨m1, m2, m3⟩ := minDue_some hmin h.pendSorted
+      have hee : e = toPend x.2 := by
+        simp only [Bool.and_eq_true, beq_iff_eq] at m2
+        have r2a := (pendByName_iff self fn e).1 (by simp only [Bool.and_eq_true, beq_iff_eq]; exact m2.1)
+        obtain ⟨c, hc1, hc2⟩ := pend_alive_inWheel h m1 (by rw [r2a.2.1]; exact halive)
+        subst hc2
+        have hcP : byName self fn c = true := by
+          rw [← pendByName_toPend]; simp only [Bool.and_eq_true, beq_iff_eq]; exact m2.1
+        have hA : ∀ y ∈ A, y.2 ≠ c := by
+          intro y hy heq
+          have := e5 y hy
+          rw [heq, hcP] at this; cases this
+        have hmod : c.due % (N : Int) = x.2.due % (N : Int) := by
+          have := m2.2
+          unfold toCInt toPend at this
+          simp only [] at this
+          wheel_omega
+        have hge := first_is_earliest hw e1 hc1 hmod hA
+        have hle := (m3 _ hmem hxQ).1
+        have hdue : c.due = x.2.due := by
+          simp only [toPend] at hle; omega
+        rcases first_has_largest_handle hw e1 hc1 hdue hA with hcx | hlt
+        · rw [hcx]
+        · exfalso
+          have := (m3 _ hmem hxQ).2 (by simp only [toPend]; omega)
+          simp only [toPend] at this
+          omega
+      subst hee
+      obtain ⟨e', rest, hro⟩ := removeOne_isSome_of_mem (q := fun y => y == toPend x.2) hmem (by simp)
+      obtain ⟨_, r2, _⟩ := removeOne_some hro h.pendSorted
+      have : e' = toPend x.2 := by simpa using r2
+      subst this
+      have hj : judgeStep j (.rmn (vnow w) self fn (Gen.C10.efunResult (timeLeft w i r.1))) = { j with pend := rest } := by
+        simp only [judgeStep, hce, hval, hmin, hro, Bool.false_eq_true, if_false]
+      rw [hj]
+      exact SimJ.remove_pair hw h e1 e2 hro
 
 theorem sim_fnm {tick : Bool} {w : World} {j : JState} (hw : WheelInv w) (h : SimJ tick w j)
     (self fn : Nat) (halive : isDead w self = false) :
@@ -137,7 +151,8 @@ theorem sim_fnm {tick : Bool} {w : World} {j : JState} (hw : WheelInv w) (h : Si
       have e4 : byName self fn x.2 = true := List.find?_some (p := fun x : Int × Call => byName self fn x.2) hf
       have hxw : InWheel w x.2 := ⟨_, x.1, hx⟩
       have hmem := h.wheelPend _ hxw
-      have hval : timeLeft w i d = (toPend x.2).due - vnow w := by rw [← hff]; exact timeLeft_pend hw hx
+      have hval : Gen.C10.efunResult (timeLeft w i d) = toCInt ((toPend x.2).due - vnow w) := by
+        rw [← hff]; exact efun_pend hw hx
       have hxP : (!(toPend x.2).fp && (toPend x.2).owner == self && (toPend x.2).fn == fn) = true := by
         rw [pendByName_toPend]; exact e4
       have hmemc : toPend x.2 ∈ j.pend.filter (fun e => !e.fp && e.owner == self && e.fn == fn) :=
@@ -147,9 +162,9 @@ theorem sim_fnm {tick : Bool} {w : World} {j : JState} (hw : WheelInv w) (h : Si
         | false => rfl
         | true => rw [List.isEmpty_iff] at hc; rw [hc] at hmemc; cases hmemc
       have hany : (j.pend.filter (fun e => !e.fp && e.owner == self && e.fn == fn)).any
-          (fun e => answerOk j e (vnow w) ((toPend x.2).due - vnow w)) = true :=
+          (fun e => answerOk j e (vnow w) (toCInt ((toPend x.2).due - vnow w))) = true :=
         List.any_eq_true.2 ⟨_, hmemc, by simp [answerOk]⟩
-      have hj : judgeStep j (.fnm (vnow w) self fn (timeLeft w i d)) = j := by
+      have hj : judgeStep j (.fnm (vnow w) self fn (Gen.C10.efunResult (timeLeft w i d))) = j := by
         simp only [judgeStep, hce, hval, hany, Bool.false_eq_true, if_false, if_true]
       rw [hj]; exact h
 
@@ -180,6 +195,23 @@ theorem sim_rmall {tick : Bool} {w : World} {j : JState} (h : SimJ tick w j) (se
     · exfalso
       have : (removeAll w self).dead = w.dead := rfl
       rw [hx.1] at hp2; cases hp2.2
+
+theorem sim_reload {tick : Bool} {w : World} {j : JState} (h : SimJ tick w j) (self : Nat) :
+    SimJ tick (reloadObj w self) (judgeStep j (.reload (vnow w) self)) := by
+  have R := sim_rmall h self
+  have hj : judgeStep j (.reload (vnow w) self) =
+      { judgeStep j (.rmall (vnow w) self) with handles := j.handles.filter (fun p => p.1.1 != self) } := rfl
+  rw [hj]
+  refine ⟨R.bad, R.dead, ?_, R.inTick, R.allLt, R.pendLt, R.pendSorted,
+    fun c hc => R.wheelPend c (hc.congr rfl), ?_⟩
+  · show j.handles.filter (fun p => p.1.1 != self) =
+      (w.hmap.filter (fun p => p.1.1 != self)).map (fun p => (p.1, (p.2 : Int)))
+    rw [h.handles, List.filter_map]
+    rfl
+  · intro p hp
+    rcases R.pendWheel p hp with ⟨c, hc1, hc2⟩ | hx
+    · exact Or.inl ⟨c, hc1.congr rfl, hc2⟩
+    · exact Or.inr hx
 
 theorem sim_dest {tick : Bool} {w : World} {j : JState} (h : SimJ tick w j) (self t : Nat) :
     SimJ tick (if isDead w t then w else { w with dead := t :: w.dead }) (judgeStep j (.dest (vnow w) self t)) := by
